@@ -97,3 +97,9 @@ def _v41(repo, mod):
     fn = repo.func(SUB, "SubprocessTestCaseExecutor._fix_assertion_trace")
     c = find_node(fn, lambda n: isinstance(n, ast.Call) and norm(n.func) == "assertion.clone")
     return replace_node(mod, c, "assertion")
+
+
+@variant("C31", "fallback-executor-without-module-provider", "pynguin.testcase.subprocess_executor", "C31.aux", "the per-test fallback runs against a fresh ModuleProvider (seed C31-e)")
+def _v50(repo, mod):
+    from sa.selftest.harness import text_edit
+    return text_edit(mod, "        executor = SubprocessTestCaseExecutor(\n            self._subject_properties,\n            self._module_provider,\n            self._maximum_test_execution_timeout,\n            self._test_execution_time_per_statement,\n        )", "        executor = SubprocessTestCaseExecutor(\n            self._subject_properties,\n            maximum_test_execution_timeout=self._maximum_test_execution_timeout,\n            test_execution_time_per_statement=self._test_execution_time_per_statement,\n        )")
